@@ -53,8 +53,11 @@ class PutHooks(Hooks):
         return None
 
 
-def rule_put(ck: Check, repo: Repo) -> None:
-    r = ck.rule("R1", "put_license_in_file: exists() refusal dominates every write; download completes before the file is opened; LicenseRef offline")
+HANDLED = ("FileExistsError", "FileNotFoundError", "URLError")  # each is caught by the command and sets the exit status
+
+
+def rule_put(ck: Check, repo: Repo, rid: str = "R1") -> None:
+    r = ck.rule(rid, "put_license_in_file: exists() refusal dominates every write; download completes before the file is opened; LicenseRef offline")
     q = f"{DL}.put_license_in_file"
     fn = repo.func(q)
     ck.analysed_fn(q)
@@ -62,7 +65,7 @@ def rule_put(ck: Check, repo: Repo) -> None:
 
     def ref(v):
         if v("exists"):
-            return ("raise", "FileExistsError", [])
+            return ("refuse",)
         if v("lref"):
             if v("source"):
                 v("source_is_dir")
@@ -86,6 +89,12 @@ def rule_put(ck: Check, repo: Repo) -> None:
         if len(pre) > 1:
             r.violation(q, "repeated mkdir", f"{pre}", repo.loc(fn))
         got = (leaf.outcome[0], leaf.outcome[1], rest)
+        if exp == ("refuse",):
+            # an existing destination: any handled error, and nothing on the file system is touched
+            # (which error is reported first when several apply is not part of the property)
+            if leaf.outcome[0] == "raise" and leaf.outcome[1] in HANDLED and not any(e[0] == "effect" for e in rest):
+                continue
+            exp = ("raise", "FileExistsError (or another handled error)", [])
         if exp[0] == "return" and exp[2] and exp[2][0][0] == "download":
             pass
         else:
@@ -247,23 +256,67 @@ def rule_cli(ck: Check, repo: Repo) -> None:
                 r.violation(q, "success changes the return code", f"{in_rc}", repo.loc(fn))
             if reports != ["_successfully_downloaded"]:
                 r.violation(q, "success reporting", f"{reports}", repo.loc(fn))
-    pf = repo.func(f"{DL}._path_to_license_file")
-    rets = [n for n in ast.walk(pf) if isinstance(n, ast.Return)]
-    txt = ast.unparse(rets[-1].value) if rets else ""
-    r.instance("_path_to_license_file", {"returns": txt})
-    if txt != "licenses_path / ''.join((spdx_identifier, '.txt'))" or "licenses_path = find_licenses_directory(root=root)" not in ast.unparse(pf):
-        r.violation(f"{DL}._path_to_license_file", "default destination", f"{txt}; expected <licenses dir>/<id>.txt", repo.loc(pf))
+
+
+def rule_destination(ck: Check, repo: Repo) -> None:
+    r = ck.rule("R3", "default destination: <root>/LICENSES/<id>.txt; the working directory is used only when the root IS a LICENSES/ directory without VCS")
+    q = f"{DL}._path_to_license_file"
+    pf = repo.func(q)
+    ck.analysed_fn(q, "reuse._util.find_licenses_directory")
+
+    class H1(Hooks):
+        def atom(self, text, node, it):
+            t = text
+            if t == "project.root":
+                return "root"
+            if t in ("project.root.name == 'LICENSES'", "'LICENSES' == project.root.name"):
+                return "root_is_licenses_dir"
+            if t == "isinstance(project.vcs_strategy, VCSStrategyNone)":
+                return "no_vcs"
+            return None
+
+    def ref1(v):
+        if v("root") and v("root_is_licenses_dir") and v("no_vcs"):
+            return "None"
+        return "project.root"
+
+    leaves = tabulate(pf, H1(), ref1, params=["spdx_identifier", "project"])
+    r.floor(2, "paths through _path_to_license_file", got=len(leaves))
+    for d, leaf, exp in leaves:
+        name = show_valuation(d)
+        out = leaf.outcome[1] if leaf.outcome[0] == "return" else repr(leaf.outcome)
+        m = re.fullmatch(r"find_licenses_directory\((?:root=)?(.+)\) / (.+)", out)
+        root_arg = m.group(1) if m else None
+        file_part = m.group(2) if m else None
+        r.instance("_path_to_license_file:" + name, {"valuation": name, "returns": out})
+        free = [a for a in d if a.startswith("?")]
+        if root_arg != exp:
+            r.violation(q, f"[{name}] root handed to find_licenses_directory",
+                        f"{root_arg}; the specification says {exp}"
+                        + (f" (the choice depends on {free[0][1:]!r}, which is not a property of the project root)" if free else ""),
+                        f"{repo.module(DL).rel}:{leaf.trace[-1] if leaf.trace else pf.lineno}", {"valuation": d})
+        if file_part not in ("''.join((spdx_identifier, '.txt'))", "f'{spdx_identifier}.txt'", "(spdx_identifier + '.txt')", "spdx_identifier + '.txt'"):
+            r.violation(q, f"[{name}] file name", f"{file_part}; expected <identifier>.txt", repo.loc(pf), {"valuation": d})
     fd = repo.func("reuse._util.find_licenses_directory")
 
     class H2(Hooks):
         def atom(self, text, node, it):
             return {"root": "root", "Path.cwd().name == 'LICENSES'": "in_licenses"}.get(text)
 
-    for d, leaf, _ in tabulate(fd, H2()):
-        exp = "Path(root) / 'LICENSES'" if d.get("root") else ("Path.cwd()" if d.get("in_licenses") else "Path.cwd() / 'LICENSES'")
+    def ref2(v):
+        if v("root"):
+            return "Path(root) / 'LICENSES'"
+        if v("in_licenses"):
+            return "Path.cwd()"
+        return "Path.cwd() / 'LICENSES'"
+
+    leaves2 = tabulate(fd, H2(), ref2, params=["root"])
+    r.floor(3, "paths through find_licenses_directory", got=len(leaves2))
+    for d, leaf, exp in leaves2:
         r.instance("find_licenses_directory:" + show_valuation(d), {"returns": leaf.outcome[1]})
         if leaf.outcome[1] != exp:
-            r.violation("reuse._util.find_licenses_directory", f"[{show_valuation(d)}]", f"{leaf.outcome[1]}; expected {exp}", repo.loc(fd))
+            r.violation("reuse._util.find_licenses_directory", f"[{show_valuation(d)}]", f"{leaf.outcome[1]}; expected {exp}", repo.loc(fd),
+                        {"valuation": d})
 
 
 def run(ck: Check, repo: Repo) -> None:
@@ -279,3 +332,4 @@ def run(ck: Check, repo: Repo) -> None:
     ck.trust("CPython ast", "sa/tab.py", "T1 effect names (Path/shutil mutators)")
     rule_put(ck, repo)
     rule_cli(ck, repo)
+    rule_destination(ck, repo)
